@@ -312,7 +312,7 @@ open EvalFilter.Exec in
 theorem C02_while_semantics (M : Machine) (F : FnTable) (obj : HostVal) (depth f : Nat) (c : Expr) (body : List Stmt) (env : Env) (out : Str) :
     execE M F obj depth (f + 1) (.whileE c body) env out =
       (match evalE M obj env c out with
-       | (.error e, o) => .failed e env o
+       | (.error e, o) => failE e env o
        | (.ok cv, o) =>
          if cv.truthy then
            match execSs M F obj depth f body env o with
@@ -361,7 +361,7 @@ theorem C02_foreach_start (M : Machine) (F : FnTable) (obj : HostVal) (depth f :
     (env : Env) (out : Str) :
     execE M F obj depth (f + 1) (.foreachE idx x v body) env out =
       (match evalE M obj env v out with
-       | (.error e, o) => .failed e env o
+       | (.error e, o) => failE e env o
        | (.ok iv, o) =>
          match resetVal iv with
          | .ok it => execIter M F obj depth f idx x body it 0 env.addScope o
@@ -390,10 +390,10 @@ open EvalFilter.Exec in
 theorem C02_switch_test (M : Machine) (F : FnTable) (obj : HostVal) (depth f : Nat) (v e : Expr) (es : List Expr) (b : List Stmt) (env : Env) (out : Str) :
     execArm M F obj depth (f + 1) v (e :: es) b env out =
       (match evalE M obj env v out with
-       | (.error x, o) => .done (.failed x env o)
+       | (.error x, o) => .done (failE x env o)
        | (.ok vv, o1) =>
          match evalE M obj env e o1 with
-         | (.error x, o) => .done (.failed x env o)
+         | (.error x, o) => .done (failE x env o)
          | (.ok ev, o2) =>
            match caseOp M vv ev with
            | .error x => .done (.failed x env o2)
@@ -485,6 +485,25 @@ example : compileProgram progR = .ok compR := by
 /-- … and it yields 4! = 24 (evaluated by the kernel) -/
 example : (match execSs (Api.newMachine compR false [] (fun _ => false)) (defsOf progR) .nilIface 0 40 progR {} [] with
     | .returned (.int v) _ _ => v == 24
+    | _ => false) = true := by decide +kernel
+/-- built-in functions called inside expressions and conditions:
+    `x = len("abc") + 1; if (x > len("abc")) { return x * 2; } return 0;` yields 8 -/
+private def progB : Program :=
+  [ .expr (.assign ['x'] (.infix ['+'] (.call (.ident ['l','e','n']) [.strLit ['a','b','c']]) (.intLit ['1'] 1))),
+    .expr (.ifE (.infix ['>'] (.ident ['x']) (.call (.ident ['l','e','n']) [.strLit ['a','b','c']]))
+      [ .ret (.infix ['*'] (.ident ['x']) (.intLit ['2'] 2)) ] none),
+    .ret (.intLit ['0'] 0) ]
+private def compB : Compiled := match compileProgram progB with | .ok c => c | .error _ => ⟨[], [], []⟩
+example : pureSs progB = true := by decide
+example : topNd progB = true := by decide
+example : compileProgram progB = .ok compB := by
+  have hok : (match compileProgram progB with | .ok _ => true | .error _ => false) = true := by decide +kernel
+  unfold compB
+  cases h : compileProgram progB with
+  | ok c => rfl
+  | error e => rw [h] at hok; cases hok
+example : (match execSs (Api.newMachine compB false Api.defaultFns (fun _ => false)) (defsOf progB) .nilIface 0 20 progB {} [] with
+    | .returned (.int v) _ _ => v == 8
     | _ => false) = true := by decide +kernel
 end nonvacuous
 
